@@ -134,6 +134,35 @@ def corpus():
     return out
 
 
+def sample_program_part(ctx):
+    """The routed fan of theorem C03_run_routes / C03_model_routes (Samples.gated: gate(c) -> B | C | END, closed by default),
+    run on the implementation for every decision, both runners and budgets 1, 2, 3, 20; status, call order and which branch
+    outputs exist are compared with the model program's own run (GateRun.gated_obs)."""
+    from harness.common import c_list, c_pos, c_nat, c_Z, c_bool
+    NAME = {"B": 11, "gate": 13, "C": 12}
+    g = {"nodes": [
+        {"name": "B", "kind": "func", "inputs": ["x"], "outputs": ["b"], "emit": [], "wait_for": [], "defaults": {}, "fn": ["sym", "B"]},
+        {"name": "gate", "kind": "route", "inputs": ["c"], "outputs": [], "emit": [], "wait_for": [], "defaults": {}, "fn": ["gtable", [[0, "B"], [1, "C"]], "END"],
+         "targets": ["B", "C", "END"], "multi": False, "fallback": None, "default_open": False},
+        {"name": "C", "kind": "func", "inputs": ["x"], "outputs": ["c2"], "emit": [], "wait_for": [], "defaults": {}, "fn": ["sym", "C"]}],
+        "bound": {}, "entrypoints": None, "selected": None}
+    items = []
+    for c in (0, 1, 2, -1):
+        for runner in ("sync", "async"):
+            for fuel in (1, 2, 3, 20):
+                x = ctx.rng.randint(0, 9)
+                rc = {"runner": runner, "inputs": {"x": x, "c": c}, "error_handling": "continue", "max_iterations": fuel}
+                obs = pdl.run_real(g, rc)
+                if obs["status"] not in ("completed", "failed"):
+                    ctx.violation("oracle", f"the routed fan ended {obs['status']}: {obs.get('error_repr')}", case={"graph": g, "run": rc})
+                    continue
+                real = (f"({c_nat(0 if obs['status'] == 'completed' else 1)}, {c_list([c_pos(NAME[nm]) for nm, _ in obs['log']])}, "
+                        f"{c_bool('b' in obs['values'])}, {c_bool('c2' in obs['values'])})")
+                rn = "Sync" if runner == "sync" else "Async"
+                items.append(({"graph": g, "run": rc}, 130, "gated_obs_eqb", f"gated_obs {rn} {c_nat(fuel)} {c_Z(x)} {c_Z(c)}", real))
+    return engine.run_model_programs(ctx, "C03", ["Samples", "GateRun"], items)
+
+
 def run(ctx):
     rng = ctx.rng
     cases = corpus()
@@ -167,9 +196,10 @@ def run(ctx):
             nontrivial.add(engine.program_key(g, rc))
         return msgs
 
+    n_model_programs = sample_program_part(ctx)
     obs_all, res = engine.run_cases(ctx, "C03", cases, extra=extra)
     ctx.coverage.update(
-        evaluations=len(cases), coq_checks=res["n"], distinct_nontrivial=len(nontrivial),
+        evaluations=len(cases) + n_model_programs, coq_checks=res["n"], distinct_nontrivial=len(nontrivial),
         rule="DAGs decorated with 1-3 if/else and route gates (single/multi target, fallback, None, END, default_open both ways, "
              "shared targets, chained gates, gate inputs arriving before/with/after the targets' inputs), loops L1/L2 and loops with an "
              "extra gate; 30% declared with explicit edges; non-trivial = at least one routing decision was made",
